@@ -328,6 +328,45 @@ func execOp(s *Sexp) string {
 		return execJRT(s)
 	case "jdeep":
 		return execJDeep(s)
+	case "declong":
+		// (declong cfgE cfgD KIND N): a value with N elements / entries is written by one configuration and
+		// read by another; far too long for the model (its decoder is quadratic): oracle only
+		if len(s.List) != 5 {
+			return "bad-op"
+		}
+		pe, _, e1 := instance(s.List[1])
+		pd, _, e2 := instance(s.List[2])
+		n, e3 := strconv.Atoi(arg(4))
+		t, ok := longTypes[arg(3)]
+		if e1 != nil || e2 != nil || e3 != nil || !ok || n < 1 || n > 2000000 {
+			return "bad-op"
+		}
+		return guard(func() string {
+			rt, err := t.RT()
+			if err != nil {
+				return "bad-op rt"
+			}
+			v := bigValue(t, n)
+			src := reflect.New(rt)
+			if err := v.ToReflect(src.Elem(), t); err != nil {
+				return "bad-op " + err.Error()
+			}
+			data, err := pe.Marshal(nil, src.Interface())
+			if err != nil {
+				return "err"
+			}
+			dst := reflect.New(rt)
+			a0 := totalAlloc()
+			err = pd.Unmarshal(data, dst.Interface())
+			used := totalAlloc() - a0
+			if err != nil {
+				return "err"
+			}
+			lastHeaderMsg = badSliceHeaders(dst.Elem())
+			same := reflect.DeepEqual(src.Elem().Interface(), dst.Elem().Interface())
+			bound := uint64(64<<10) + 3*uint64(maxNodeSize(rt))*uint64(len(data))
+			return fmt.Sprintf("ok same=%v input=%d within=%v alloc=%d bound=%d", same, len(data), used <= bound, used, bound)
+		})
 	case "deschost":
 		// (deschost cfg T tag xDATA): arbitrary bytes through T's Descriptor
 		c, err := parseCtx(s)
@@ -1019,4 +1058,19 @@ func mutateInPlace(rv reflect.Value, t *TyDef, v *Val) error {
 		return nil
 	}
 	return v.ToReflect(rv, t)
+}
+
+var longInner = Struct(F("A", "1", B("int")), F("B", "2", B("str")))
+
+// longTypes: the repeating wire forms, by name (declong).
+var longTypes = map[string]*TyDef{
+	"strs":    Struct(F("S", "1", Slice(B("str")))),
+	"structs": Struct(F("S", "1", Slice(longInner))),
+	"ptrs":    Struct(F("S", "1", Slice(Ptr(longInner)))),
+	"ints":    Struct(F("S", "1", Slice(B("int")))),
+	"f64s":    Struct(F("S", "1", Slice(B("f64")))),
+	"bytess":  Struct(F("S", "1", Slice(Slice(B("uint8"))))),
+	"map":     Struct(F("M", "1", Map(B("int"), B("str")))),
+	"pmap":    Struct(&FieldDef{Name: "M", Exported: true, Plenc: "1,proto", T: Map(B("int"), B("int"))}),
+	"pstrs":   Struct(&FieldDef{Name: "S", Exported: true, Plenc: "1,proto", T: Slice(B("str"))}),
 }
